@@ -48,8 +48,21 @@ fn size_matching(size: &Size) -> String {
     }
 }
 
+/// The byte count a size stands for, wide enough that `count * unit` cannot overflow
+fn wide_byte_size(size: &Size) -> u128 {
+    let (Size::Byte(s)
+    | Size::Word(s)
+    | Size::Block(s)
+    | Size::KiloByte(s)
+    | Size::MegaByte(s)
+    | Size::GigaByte(s)
+    | Size::TeraByte(s)) = size;
+
+    *s as u128 * size.mult() as u128
+}
+
 fn compile_size_comp(buffer: &mut String, comp: &Comparison<Size>) {
-    buffer.push_str(&format_cmp!(comp, size_matching, Size::byte_size));
+    buffer.push_str(&format_cmp!(comp, size_matching, wide_byte_size));
 }
 
 fn compile_time_comp(buffer: &mut String, field: &str, comp: &Comparison<TimeSpec>) {
